@@ -160,6 +160,24 @@ class AgentExecutingComponent(rpu.AgentComponent):
 
     # --------------------------------------------------------------------------
     #
+    def is_canceled(self, task):
+        '''
+        Tasks which get canceled before the executor starts to work on them
+        (input filter in `work_cb`) still hold the slots assigned by the
+        scheduler - make sure those get released.
+        '''
+
+        ret = super().is_canceled(task)
+
+        if ret:
+            self._prof.prof('unschedule_start', uid=task['uid'])
+            self.publish(rpc.AGENT_UNSCHEDULE_PUBSUB, task)
+
+        return ret
+
+
+    # --------------------------------------------------------------------------
+    #
     def get_task(self, tid):
 
         raise NotImplementedError('get_task is not implemented')
